@@ -163,3 +163,6 @@ PROPS['C12'] = dict(units=list(cli.UNITS_C12) + [cli.Main, cli.PrintFile, _ch.H1
 PROPS['C10']['units'] = PROPS['C10']['units'] + [_ch.H10]
 PROPS['C05']['units'] = PROPS['C05']['units'] + list(cli.UNITS_C05) + [cli.Main, _ch.H05]
 PROPS['C06']['units'] = [cli.AllPels, cli.ListOption, cli.Count]
+
+from contracts import meta as _meta
+_meta.apply(PROPS)
